@@ -5,6 +5,7 @@ import hir as H
 import mir as M
 import rulelib as L
 import symrules as SR
+import sym
 import spec_tables as S
 from c08 import format_calls
 
@@ -26,56 +27,47 @@ def run(F, R, tier):
             continue
         priv = {f["name"] for f in fs if f["ty"].replace(" ", "").startswith("core::option::Option<")}
         pub = {f["name"] for f in fs} - priv
-        # is_public
-        h = F.hir(path + "::is_public")
-        if r1.anchor(h, path + "::is_public"):
-            env = H.Env(h)
+        # is_public ⇔ every private (Option) member is None — by abstract evaluation
+        fn = path + "::is_public"
+        if r1.anchor(F.hir(fn), fn):
+            tab = SR.Table(F, fn, rule=r1)
             tested = set()
-            shape_ok = True
-            for n, _ in H.exits(h):
-                for cj in H.conjuncts(n):
-                    cj = H.strip(cj)
-                    if cj.get("k") == "mcall" and cj["name"] == "is_none":
-                        for o in H.origins(cj["recv"], env):
-                            if o[:2] == ("param", "self") and len(o) == 3:
-                                tested.add(o[2])
-                    else:
-                        shape_ok = False
-            r1.site("%s::is_public tests is_none of %s; Option fields %s" % (ty, sorted(tested), sorted(priv)), h["value"]["sp"])
-            r1.require(shape_ok, (path + "::is_public", "shape"), "%s::is_public is not a conjunction of `<field>.is_none()`" % ty)
-            r1.require(tested == priv, (path + "::is_public", "fields", ",".join(sorted(priv ^ tested))), "%s::is_public tests %s but the private (Option) members are %s" % (ty, sorted(tested), sorted(priv)))
-        # to_public
-        h = F.hir(path + "::to_public")
-        if r1.anchor(h, path + "::to_public"):
-            env = H.Env(h)
-            lits = [s for s in H.struct_lits(h) if s.get("ty") == path]
-            if r1.require(len(lits) == 1 and not lits[0].get("base"), (path + "::to_public", "literal"), "%s::to_public does not build a full struct literal (no `..base`)" % ty):
-                nones, clones = set(), {}
-                for f in lits[0]["fields"]:
-                    e = H.strip(f["e"])
-                    if e.get("k") == "path" and H.variant_name(e.get("res", {})) == "None":
-                        nones.add(f["name"])
-                    else:
-                        clones[f["name"]] = H.origins(f["e"], env)
-                r1.site("%s::to_public: None ← %s; cloned ← %s" % (ty, sorted(nones), sorted(clones)), lits[0]["sp"])
-                r1.require(nones == priv, (path + "::to_public", "private-dropped", ",".join(sorted(priv ^ nones))), "%s::to_public sets %s to None but the private members are %s: a private member survives the projection" % (ty, sorted(nones), sorted(priv)))
-                for k, oo in clones.items():
-                    r1.require(oo == {("param", "self", k)}, (path + "::to_public", "public-kept", k), "%s::to_public does not keep public member `%s` from self: %s" % (ty, k, sorted(map(str, oo))))
-                r1.require(set(clones) == pub, (path + "::to_public", "public-set"), "%s::to_public keeps %s, public members are %s" % (ty, sorted(clones), sorted(pub)))
-        # is_private: all listed must be Option fields
-        h = F.hir(path + "::is_private")
-        if h:
-            env = H.Env(h)
-            tested = set()
-            for n, _ in H.exits(h):
-                for cj in H.conjuncts(n):
-                    cj = H.strip(cj)
-                    if cj.get("k") == "mcall" and cj["name"] == "is_some":
-                        for o in H.origins(cj["recv"], env):
-                            if o[:2] == ("param", "self") and len(o) == 3:
-                                tested.add(o[2])
-            r1.site("%s::is_private requires %s" % (ty, sorted(tested)))
-            r1.require(tested and tested <= priv and "d" in tested, (path + "::is_private", "fields"), "%s::is_private does not require the private members (tests %s)" % (ty, sorted(tested)))
+            for q in tab.paths:
+                st = {t_[2]: v_ for t_, v_ in q.variant.items() if isinstance(t_, tuple) and t_[:1] == ("field",) and t_[1] == SR.SELF and isinstance(v_, str)}
+                tested |= set(st)
+                if q.ret is True:
+                    r1.require(set(k_ for k_, v_ in st.items() if v_ == "None") == priv and not any(v_ == "Some" for v_ in st.values()), (fn, "fields", ",".join(sorted(priv ^ set(st)))),
+                               "%s::is_public returns true with only %s known to be absent, but the private (Option) members are %s" % (ty, sorted(k_ for k_, v_ in st.items() if v_ == "None"), sorted(priv)))
+                elif q.ret is False:
+                    r1.require(any(v_ == "Some" and k_ in priv for k_, v_ in st.items()), (fn, "shape"), "%s::is_public returns false although no private member is present — path: %s" % (ty, q.describe()[:160]))
+                else:
+                    r1.fail((fn, "shape"), "%s::is_public does not evaluate to a boolean over its members: %r" % (ty, q.ret))
+            r1.site("%s::is_public tests absence of %s; Option fields %s" % (ty, sorted(tested), sorted(priv)))
+            r1.require(tested == priv or not tab.paths, (fn, "fields", ",".join(sorted(priv ^ tested))), "%s::is_public tests %s but the private (Option) members are %s" % (ty, sorted(tested), sorted(priv)))
+        # to_public: private members None, public members kept — by abstract evaluation
+        fn = path + "::to_public"
+        if r1.anchor(F.hir(fn), fn):
+            tab = SR.Table(F, fn, rule=r1)
+            for q in tab.paths:
+                out = q.ret
+                if not r1.require(isinstance(out, sym.St) and out.ty == path, (fn, "literal"), "%s::to_public does not build a %s value the evaluator can see: %r" % (ty, ty, out)):
+                    continue
+                nones = {k_ for k_, v_ in out.f.items() if sym.term(v_) == ("ctor", "None")}
+                kept = {k_ for k_, v_ in out.f.items() if sym.term(v_) == ("field", SR.SELF, k_)}
+                r1.site("%s::to_public: None ← %s; cloned ← %s" % (ty, sorted(nones), sorted(kept)))
+                r1.require(nones == priv, (fn, "private-dropped", ",".join(sorted(priv ^ nones))), "%s::to_public sets %s to None but the private members are %s: a private member survives the projection" % (ty, sorted(nones), sorted(priv)))
+                r1.require(kept == pub and set(out.f) == priv | pub, (fn, "public-set"), "%s::to_public keeps %s from self, public members are %s" % (ty, sorted(kept), sorted(pub)))
+        # is_private: true only when the private members are present
+        fn = path + "::is_private"
+        if F.hir(fn):
+            tab = SR.Table(F, fn, rule=r1)
+            need = None
+            for q in tab.paths:
+                if q.ret is True:
+                    st = {t_[2] for t_, v_ in q.variant.items() if isinstance(t_, tuple) and t_[:1] == ("field",) and t_[1] == SR.SELF and v_ == "Some"}
+                    need = st if need is None else need & st
+            r1.site("%s::is_private requires %s" % (ty, sorted(need or [])))
+            r1.require(bool(need) and need <= priv and "d" in need, (fn, "fields"), "%s::is_private does not require the private members (requires %s)" % (ty, sorted(need or [])))
     # JwkParams tables
     for fn, want in ((KP + "::JwkParams::to_public", {"Okp(_)": "Some", "Ec(_)": "Some", "Rsa(_)": "Some", "Oct(_)": "None"}),):
         h = F.hir(fn)
